@@ -14,6 +14,7 @@ import (
 	"errors"
 	"flag"
 	"fmt"
+	"html"
 	htmltemplate "html/template"
 	"io/fs"
 	"io/ioutil"
@@ -575,7 +576,7 @@ func (state *RuntimeState) writeHTML2FAAuthPage(w http.ResponseWriter,
 		ShowU2F:               showU2F,
 		ShowTOTP:              state.Config.Base.EnableLocalTOTP,
 		ShowOktaOTP:           state.Config.Okta.Enable2FA,
-		LoginDestinationInput: htmltemplate.HTML("<INPUT TYPE=\"hidden\" id=\"login_destination_input\" NAME=\"login_destination\" VALUE=\"" + safeLoginDestination + "\">"),
+		LoginDestinationInput: htmltemplate.HTML("<INPUT TYPE=\"hidden\" id=\"login_destination_input\" NAME=\"login_destination\" VALUE=\"" + html.EscapeString(safeLoginDestination) + "\">"),
 	}
 	err := state.htmlTemplate.ExecuteTemplate(w, "secondFactorLoginPage",
 		displayData)
@@ -603,7 +604,7 @@ func (state *RuntimeState) writeHTMLLoginPage(w http.ResponseWriter,
 		DefaultUsername:       defaultUsername,
 		ShowBasicAuth:         showBasicAuth,
 		ShowOauth2:            state.Config.Oauth2.Enabled,
-		LoginDestinationInput: htmltemplate.HTML("<INPUT TYPE=\"hidden\" id=\"login_destination_input\" NAME=\"login_destination\" VALUE=\"" + safeLoginDestination + "\">"),
+		LoginDestinationInput: htmltemplate.HTML("<INPUT TYPE=\"hidden\" id=\"login_destination_input\" NAME=\"login_destination\" VALUE=\"" + html.EscapeString(safeLoginDestination) + "\">"),
 		ErrorMessage:          errorMessage,
 	}
 	err := state.htmlTemplate.ExecuteTemplate(w, "loginPage", displayData)
